@@ -82,7 +82,13 @@ def task(module, func, props, label='', cost=1, **kwargs):
 
 
 def run_task(t: Task):
-    return t.run()
+    t0 = time.time()
+    rs = t.run()
+    TASK_TIMES[t.label] = time.time() - t0
+    return rs, time.time() - t0
+
+
+TASK_TIMES = {}
 
 
 def sanitize(name):
